@@ -68,7 +68,7 @@ class Ctx(object):
         if not self.driver.available():
             self.broke("correspondence", name, "model driver is not built")
             return False
-        got = self.driver.run(lines)
+        got = self.driver.run(lines, timeout=3000 if self.thorough else 600)
         bad = []
         for i, (l, e, g) in enumerate(zip(lines, expected, got)):
             self.evaluations += 1
